@@ -123,7 +123,7 @@ fn first_diff_line(a: &str, b: &str) -> String {
 }
 
 pub fn load_dirty() -> HashSet<String> {
-    std::fs::read_to_string("/verif/corpus/c02_dirty.txt").unwrap_or_default().lines().map(|l| l.trim().to_string()).filter(|l| !l.is_empty() && !l.starts_with('#')).collect()
+    std::fs::read_to_string("corpus/c02_dirty.txt").or_else(|_| std::fs::read_to_string("/verif/corpus/c02_dirty.txt")).unwrap_or_default().lines().map(|l| l.trim().to_string()).filter(|l| !l.is_empty() && !l.starts_with('#')).collect()
 }
 
 pub fn run(tier: &str, seed: u64, out: &Path) -> i32 {
